@@ -494,7 +494,10 @@ def oracleC05Vi (hasCompleter : Bool) (histNonEmpty : Bool) (o : ImplObs) : OVer
         -- sub-loop swallows it is decided at that second report (Alt-X inside a search is one more
         -- Backspace of the search: D47)
         if cb.mode != "vc" && (match key.code with | .char _ => key.mods == 4 | _ => false) then
-          go (k + 1) (if st.sub != 0 then st.lose else st) rest
+          -- (a fast-command key that arrives inside a completion or search sub-loop: which of the two
+          -- consumes it, and what group structure results, is not determined by what the callbacks
+          -- show — nothing further is judged in this read)
+          if st.sub != 0 then none else go (k + 1) st rest
         else
         -- the sub-loops swallow their own keys; any other key ends them and is then executed.  In vi
         -- command mode the keys a search goes on with are `X` (Kill(BackwardChar)), C-r, C-s and the
